@@ -140,6 +140,8 @@ def gen_ops(rng, prop, knobs, profile):
     else:
         # the remote object changes (possibly in length) while it is or is not cached
         weights += [(rng.choice([0, 0, 3]), "RES_UPDATE")]
+    if knobs.get("relative_path") and knobs.get("api") == "module":
+        weights += [(6, "CHDIR")]
     ops = []
     dts = [0, 1000, 10**6, 10**9, 3600 * 10**9]
     big = knobs.get("big_requests")
@@ -185,6 +187,8 @@ def gen_ops(rng, prop, knobs, profile):
             op["name"] = rng.choice(FOREIGN_NAMES)
             op["size"] = rng.choice([0, 10, 5000])
             op["age"] = rng.choice([0, -86400 * 10**9 * 30])
+        elif kind == "CHDIR":
+            op["to"] = rng.choice(["cwd2", "cwd/sub", "elsewhere"])
         elif kind == "EDIT_CONFIG":
             op["size"] = max(1, int(knobs["max_bytes"] * rng.choice([0.3, 0.5, 0.8, 1.5])))
         elif kind in ("RES_UPDATE", "RES_DELETE"):
